@@ -1,6 +1,7 @@
 package main
 
 import (
+	"go/constant"
 	"fmt"
 	"go/token"
 	"go/types"
@@ -353,6 +354,7 @@ func runC11(w *World, r *Report) {
 	c11RuleG(w, r)
 	c11RuleA(w, r, subjects, ctxs)
 	c11RuleR(w, r, subjects)
+	c11RuleI(w, r, subjects)
 	c11RuleL(w, r, subjects, derefs)
 	collectorRules(w, r, "", "C11/L-collector")
 	r.assume("generated accessors are pure getters over a tree that subject code never mutates (checked: no AddChild/Set*/RemoveLastChild call)")
@@ -1279,7 +1281,7 @@ func c11RuleR(w *World, r *Report, subjects []*ssa.Function) {
 			if counts[kb] > 1 {
 				key = fmt.Sprintf("%s#%d", kb, counts[kb])
 			}
-			why, neutral := w.recursionBounded(f, g, c)
+			why, neutral := w.recursionBounded(f, g, c, func(a, b *ssa.Function) bool { return comp[a] == comp[b] && (a != b || true) && inSet[a] && inSet[b] })
 			edges = append(edges, &redge{f, g, c, key, why, neutral})
 		})
 	}
@@ -1362,7 +1364,7 @@ func c11RuleR(w *World, r *Report, subjects []*ssa.Function) {
 	r.floor(rule, 8)
 }
 
-func (w *World) recursionBounded(caller, callee *ssa.Function, call ssa.CallInstruction) (string, bool) {
+func (w *World) recursionBounded(caller, callee *ssa.Function, call ssa.CallInstruction, sameCycle func(a, b *ssa.Function) bool) (string, bool) {
 	args := call.Common().Args
 	// (c) parse-tree descent: some argument is a grammar node obtained from the caller's own context parameter through an accessor
 	for _, a := range args {
@@ -1400,7 +1402,7 @@ func (w *World) recursionBounded(caller, callee *ssa.Function, call ssa.CallInst
 		}
 	}
 	// (b) visited set in the callee: entry lookup with early return + insert
-	if hasVisitedSet(callee) {
+	if hasVisitedSet(callee, sameCycle) {
 		return "callee is cut by a visited set (lookup with early return, then insert)", false
 	}
 	// no packet/tree argument at all: recursion on something else (strings...) is not over the packet graph
@@ -1548,7 +1550,7 @@ func (w *World) underIsIner(blk *ssa.BasicBlock, attr ssa.Value) bool {
 }
 
 // hasVisitedSet: the function looks a key up in a map that outlives the call, returns early on a hit, and inserts into the same map.
-func hasVisitedSet(fn *ssa.Function) bool {
+func hasVisitedSet(fn *ssa.Function, sameCycle func(a, b *ssa.Function) bool) bool {
 	found := false
 	forEachInstr(fn, func(b *ssa.BasicBlock, ins ssa.Instruction) {
 		lk, ok := ins.(*ssa.Lookup)
@@ -1585,8 +1587,24 @@ func hasVisitedSet(fn *ssa.Function) bool {
 		// insert into the same map expression, dominated by the lookup block, before any recursive call
 		forEachInstr(fn, func(b2 *ssa.BasicBlock, i2 ssa.Instruction) {
 			if mu, ok := i2.(*ssa.MapUpdate); ok && sameMapExpr(mu.Map, lk.X) && b.Dominates(b2) {
-				// must precede recursive calls: check it dominates all static self-reaching calls loosely (same block order)
-				found = true
+				// the mark must be set before the function recurses: it dominates every call that stays on the cycle
+				before := true
+				forEachInstr(fn, func(b3 *ssa.BasicBlock, i3 ssa.Instruction) {
+					c, ok := i3.(ssa.CallInstruction)
+					if !ok {
+						return
+					}
+					g := c.Common().StaticCallee()
+					if g == nil || sameCycle == nil || !sameCycle(fn, g) {
+						return
+					}
+					if !instrDominates(mu, i3) {
+						before = false
+					}
+				})
+				if before {
+					found = true
+				}
 			}
 		})
 	})
@@ -2116,4 +2134,311 @@ func underLenAttrTest(blk *ssa.BasicBlock) bool {
 		}
 	}
 	return false
+}
+
+// c11RuleI: constant-bound slicing/indexing of a string or slice whose length the program text does not establish.
+// A value v[:k], v[k:] (k > 0) or v[k] panics when len(v) < k (or <= k); the bound is established by a dominating length test
+// on the same value, by the value's construction (literal, array, make with constant size, append of k elements, strings.Split has >= 1),
+// or by a grammar fact (os.Args has >= 1 element).
+func c11RuleI(w *World, r *Report, subjects []*ssa.Function) {
+	const rule = "C11/I-constant-index"
+	for _, fn := range subjects {
+		counts := map[string]int{}
+		forEachInstr(fn, func(b *ssa.BasicBlock, ins ssa.Instruction) {
+			var base ssa.Value
+			var need int64 // minimal length required
+			what := ""
+			constOf := func(v ssa.Value) (int64, bool) {
+				c, ok := v.(*ssa.Const)
+				if !ok || c.Value == nil || c.Value.Kind() != constant.Int {
+					return 0, false
+				}
+				return c.Int64(), true
+			}
+			switch x := ins.(type) {
+			case *ssa.Slice:
+				if _, isPtrArr := x.X.Type().Underlying().(*types.Pointer); isPtrArr {
+					return // slicing an array: bounds are static
+				}
+				if x.High != nil {
+					if k, ok := constOf(x.High); ok && k > need {
+						need = k
+					}
+				}
+				if x.Low != nil {
+					if k, ok := constOf(x.Low); ok && k > need {
+						need = k
+					}
+				}
+				base, what = x.X, "slice"
+			case *ssa.Index:
+				if _, isArr := x.X.Type().Underlying().(*types.Array); isArr {
+					return
+				}
+				if k, ok := constOf(x.Index); ok {
+					need, base, what = k+1, x.X, "index"
+				}
+			case *ssa.IndexAddr:
+				if pt, ok := x.X.Type().Underlying().(*types.Pointer); ok {
+					if _, isArr := pt.Elem().Underlying().(*types.Array); isArr {
+						return
+					}
+				}
+				if k, ok := constOf(x.Index); ok {
+					need, base, what = k+1, x.X, "index"
+				}
+			case *ssa.Lookup:
+				// string indexing s[k]
+				if isStringType(x.X.Type()) {
+					if k, ok := constOf(x.Index); ok {
+						need, base, what = k+1, x.X, "index"
+					}
+				}
+			}
+			if base == nil || need <= 0 {
+				return
+			}
+			kb := fmt.Sprintf("%s %s of %s needs len >= %d", fnKey(fn), what, operandShort(base), need)
+			counts[kb]++
+			key := kb
+			if counts[kb] > 1 {
+				key = fmt.Sprintf("%s#%d", kb, counts[kb])
+			}
+			if why := lengthEstablished(b, base, need); why != "" {
+				r.pass(rule, key, w.instrPos(ins), why)
+			} else if why := w.grammarLength(base, need); why != "" {
+				r.pass(rule, key, w.instrPos(ins), why)
+			} else {
+				r.fail(rule, key, w.instrPos(ins), fmt.Sprintf("constant-bound %s of a value whose length is not established (needs at least %d): an empty or short value panics with a bounds error instead of producing a diagnostic", what, need))
+			}
+		})
+	}
+}
+
+func operandShort(v ssa.Value) string {
+	switch x := stripIdentity(v).(type) {
+	case *ssa.Call:
+		return "call:" + calleeName(x)
+	case *ssa.Parameter:
+		return "param:" + x.Name()
+	case *ssa.UnOp:
+		if g, ok := x.X.(*ssa.Global); ok {
+			return g.Name()
+		}
+		if fa, ok := x.X.(*ssa.FieldAddr); ok {
+			_, f, _, _ := fieldOf(fa)
+			return "." + f
+		}
+	}
+	return v.Type().String()
+}
+
+// sameLoad: the same value, or two loads of the same global / of the same field of the same object.
+func sameLoad(a, b ssa.Value) bool {
+	a, b = stripIdentity(a), stripIdentity(b)
+	if a == b {
+		return true
+	}
+	ua, ok1 := a.(*ssa.UnOp)
+	ub, ok2 := b.(*ssa.UnOp)
+	if !ok1 || !ok2 || ua.Op != token.MUL || ub.Op != token.MUL {
+		return false
+	}
+	if ga, ok := ua.X.(*ssa.Global); ok {
+		gb, ok := ub.X.(*ssa.Global)
+		return ok && ga == gb
+	}
+	fa, ok1 := ua.X.(*ssa.FieldAddr)
+	fb, ok2 := ub.X.(*ssa.FieldAddr)
+	return ok1 && ok2 && fa.Field == fb.Field && sameLoad(fa.X, fb.X)
+}
+
+// grammarLength: a minimal length that follows from the grammar: a list built from a `child+` repetition, or the text of a token
+// whose lexer rule starts with a literal.
+func (w *World) grammarLength(base ssa.Value, need int64) string {
+	base = stripIdentity(base)
+	ctxs := w.ctxTable()
+	// MatchFieldAttribute.MatchPairs: one or more pairs per matchPair child, and matchPair+ in the grammar
+	if ld, ok := base.(*ssa.UnOp); ok && ld.Op == token.MUL {
+		if fa, ok := ld.X.(*ssa.FieldAddr); ok {
+			if tn, f, _, _ := fieldOf(fa); tn == "MatchFieldAttribute" && f == "MatchPairs" && need <= 1 {
+				if ci := ctxs["MatchFieldDeclarationContext"]; ci != nil && ci.Children["matchPair"].Min >= 1 {
+					return "the grammar requires matchPair+ and every matchPair contributes a pair (C05/pair-expansion); generators run on diagnostic-free models only (C12/gate)"
+				}
+			}
+		}
+	}
+	// text of a delimited token
+	if c, ok := base.(*ssa.Call); ok {
+		name := ""
+		var recv ssa.Value
+		if c.Call.IsInvoke() {
+			name, recv = c.Call.Method.Name(), c.Call.Value
+		}
+		if name == "GetText" && recv != nil {
+			if rc, ok := stripIdentity(recv).(*ssa.Call); ok {
+				if _, ai, ok := w.accessorOf(rc, ctxs); ok && ai.Known {
+					tok := strings.TrimSuffix(strings.TrimSuffix(ai.What, "*"), "=")
+					if lr := w.G4.lrule[tok]; lr != nil {
+						raw := strings.TrimSpace(lr.Raw)
+						if strings.HasPrefix(raw, "'") {
+							if end := strings.Index(raw[1:], "'"); end > 0 && int64(end) >= need {
+								return "the lexer rule of " + tok + " starts with a literal: the token text is never shorter"
+							}
+						}
+					}
+				}
+			}
+		}
+	}
+	return ""
+}
+
+// lengthEstablished: why len(base) >= need holds at block b ("" if it cannot be shown).
+func lengthEstablished(b *ssa.BasicBlock, base ssa.Value, need int64) string {
+	base = stripIdentity(base)
+	// construction
+	switch x := base.(type) {
+	case *ssa.Const:
+		if s, ok := constString(x); ok && int64(len(s)) >= need {
+			return "constant"
+		}
+	case *ssa.Slice:
+		if pt, ok := x.X.Type().Underlying().(*types.Pointer); ok {
+			if arr, ok := pt.Elem().Underlying().(*types.Array); ok && x.High == nil && x.Low == nil && arr.Len() >= need {
+				return "slice of a fixed-size array"
+			}
+		}
+	case *ssa.UnOp:
+		if g, ok := x.X.(*ssa.Global); ok && g.Name() == "Args" && g.Pkg != nil && g.Pkg.Pkg.Path() == "os" && need <= 1 {
+			return "os.Args always holds the program name"
+		}
+	case *ssa.Call:
+		if f := x.Call.StaticCallee(); f != nil {
+			switch f.String() {
+			case "strings.Split", "strings.SplitN":
+				if need <= 1 {
+					return "strings.Split returns at least one element"
+				}
+			}
+		}
+	}
+	// a dominating length test on the same value
+	fn := b.Parent()
+	for _, bb := range fn.Blocks {
+		cond := branchCond(bb)
+		if cond == nil {
+			continue
+		}
+		neg := false
+		c := cond
+		for {
+			if u, ok := c.(*ssa.UnOp); ok && u.Op == token.NOT {
+				neg = !neg
+				c = u.X
+				continue
+			}
+			break
+		}
+		bo, ok := c.(*ssa.BinOp)
+		if !ok {
+			continue
+		}
+		lenOf := func(v ssa.Value) ssa.Value {
+			call, ok := v.(*ssa.Call)
+			if !ok {
+				return nil
+			}
+			if bi, ok := call.Call.Value.(*ssa.Builtin); ok && bi.Name() == "len" {
+				return call.Call.Args[0]
+			}
+			return nil
+		}
+		var k int64
+		var okK bool
+		op := bo.Op
+		var subject ssa.Value
+		if s := lenOf(bo.X); s != nil {
+			subject = s
+			if cst, ok := bo.Y.(*ssa.Const); ok && cst.Value != nil && cst.Value.Kind() == constant.Int {
+				k, okK = cst.Int64(), true
+			}
+		} else if s := lenOf(bo.Y); s != nil {
+			subject = s
+			if cst, ok := bo.X.(*ssa.Const); ok && cst.Value != nil && cst.Value.Kind() == constant.Int {
+				k, okK = cst.Int64(), true
+			}
+			// mirror the operator
+			switch op {
+			case token.LSS:
+				op = token.GTR
+			case token.GTR:
+				op = token.LSS
+			case token.LEQ:
+				op = token.GEQ
+			case token.GEQ:
+				op = token.LEQ
+			}
+		}
+		if subject == nil {
+			// s != "" / s == "": one character at least on the non-empty edge
+			if (bo.Op == token.NEQ || bo.Op == token.EQL) && need <= 1 {
+				var other, str ssa.Value
+				if e, ok := constString(bo.X); ok && e == "" {
+					other, str = bo.X, bo.Y
+				} else if e, ok := constString(bo.Y); ok && e == "" {
+					other, str = bo.Y, bo.X
+				}
+				if other != nil && sameLoad(str, base) {
+					nonEmptyOnTrue := bo.Op == token.NEQ
+					if neg {
+						nonEmptyOnTrue = !nonEmptyOnTrue
+					}
+					succ := 1
+					if nonEmptyOnTrue {
+						succ = 0
+					}
+					if edgeDominates(bb, succ, b) {
+						return "dominated by a non-empty test"
+					}
+				}
+			}
+			continue
+		}
+		if !okK || !sameLoad(subject, base) {
+			continue
+		}
+		// on which edge is len >= need known?
+		trueMin, falseMin := int64(-1), int64(-1) // minimal length known on the true / false edge
+		switch op {
+		case token.GTR:
+			trueMin = k + 1
+		case token.GEQ:
+			trueMin = k
+		case token.LSS:
+			falseMin = k
+		case token.LEQ:
+			falseMin = k + 1
+		case token.EQL:
+			trueMin = k
+			if k == 0 {
+				falseMin = 1
+			}
+		case token.NEQ:
+			falseMin = k
+			if k == 0 {
+				trueMin = 1
+			}
+		}
+		if neg {
+			trueMin, falseMin = falseMin, trueMin
+		}
+		if trueMin >= need && edgeDominates(bb, 0, b) {
+			return "dominated by a length test"
+		}
+		if falseMin >= need && edgeDominates(bb, 1, b) {
+			return "dominated by a length test"
+		}
+	}
+	return ""
 }
